@@ -619,4 +619,21 @@ impl<T: Deref<Target = [Cell<Value>]>> ReadHandle<'_, T> {
         to_set.set(Value::stale());
         was_stale
     }
+
+    /// Overwrite the contents of `row` with `contents`.
+    ///
+    /// # Safety
+    /// The same requirements as [`ReadHandle::set_stale_shared`] apply: there must be no
+    /// concurrent reads or writes to `row`, and `row` must be in bounds of the initial length of
+    /// the wrapped vector or of a previously completed write.
+    pub(crate) unsafe fn overwrite_row_shared(&self, row: RowId, contents: &[Value]) {
+        debug_assert_eq!(contents.len(), self.buf.n_columns);
+        let cells: &[Cell<Value>] = &self.data;
+        let cell_ptr: *const Cell<Value> = cells.as_ptr();
+        for (i, v) in contents.iter().enumerate() {
+            let to_set: &Cell<Value> =
+                unsafe { &*cell_ptr.add(row.index() * self.buf.n_columns + i) };
+            to_set.set(*v);
+        }
+    }
 }
